@@ -12,6 +12,7 @@
 from __future__ import annotations
 
 import ast
+import re
 
 from ..cfg import cfg_of
 from ..core import (
@@ -423,6 +424,41 @@ def rule_until(program, ctx, prop=P, rid="C08.until"):
         ctx.bad(finding_func(prop, rid, ps, "the kind-5 branch no longer scans the author index", text="def _post_save(...) :: scan"))
 
 
+def rule_deletes(program, ctx, prop=P, rid="C08.deletes"):
+    ctx.rule(
+        rid,
+        "who-may-delete (SQL): rows of `events` are deleted only by pre_save / post_save / process_tags / delete_event (author-checked or explicit), and by the garbage "
+        "collector's single audited statement (kind range / expiration). A second GC statement - e.g. 'late deletions' joined on the e tags of stored kind-5 events - is a "
+        "new deletion path; an unqualified column in its sub-select silently drops the author check",
+        floor=3,
+    )
+    m = program.module("nostr_relay.storage.db")
+    owners = {"DBStorage.pre_save", "DBStorage.post_save", "DBStorage.process_tags", "DBStorage.delete_event"}
+    for c in ast.walk(m.tree):
+        if isinstance(c, ast.Call) and _is_delete_events(c):
+            q = qual_of(c)
+            if q in owners:
+                ctx.ok(rid, c, f"events DELETE in {q}")
+            else:
+                ctx.bad(finding_at(prop, rid, c, f"{q} deletes rows of `events` outside the audited deletion paths"))
+    gcc = program.cls("nostr_relay.storage.db:QueryGarbageCollector")
+    texts = [(n, n.value) for n in ast.walk(gcc.node) if isinstance(n, ast.Constant) and isinstance(n.value, str) and re.search(r"DELETE\s+FROM\s+events", n.value, re.I)]
+    if len(texts) == 1:
+        ctx.ok(rid, texts[0][0], "the collector has one DELETE statement")
+    else:
+        for n, _ in texts[1:]:
+            ctx.bad(finding_at(prop, rid, n, "the garbage collector carries a second DELETE FROM events statement: a deletion path that is not the kind-range / expiration sweep "
+                               "(and not the author-checked NIP-09 path of process_tags)"))
+        if not texts:
+            raise AnalysisError("GC statement not found")
+    col = gcc.methods.get("collect")
+    ex = [c for c in ast.walk(col) if isinstance(c, ast.Call) and call_name(c).endswith(".execute")] if col is not None else []
+    if len(ex) == 1:
+        ctx.ok(rid, ex[0], "collect() executes one statement")
+    elif col is not None:
+        ctx.bad(finding_at(prop, rid, ex[1] if len(ex) > 1 else col, f"QueryGarbageCollector.collect executes {len(ex)} statements"))
+
+
 def run(program, ctx):
     from ..lib import rule_awaited
 
@@ -432,10 +468,13 @@ def run(program, ctx):
     rule_kv(program, ctx)
     rule_reach(program, ctx)
     rule_until(program, ctx)
+    rule_deletes(program, ctx)
     from . import c07
 
     c07.rule_sqlregion(program, ctx, prop=P, rid="C08.txn")
     c07.rule_overrides(program, ctx, prop=P, rid="C08.overrides")
+    # the deletion and its DELETEs are one transaction only while the driver opens transactions at all
+    c07.rule_isolation(program, ctx, prop=P, rid="C08.isolation")
     from . import c10
 
     # the kind-5 branch decides authorship by scanning the authors index: that index must list an event under its signer only
